@@ -134,6 +134,25 @@ theorem readRow_exec (dst src : String) (hds : dst ≠ src) (st : State F) (fuel
         · simp [getD_set_ne _ _ _ _ _ hqk]
           exact hq q (by omega))
 
+
+/-- `for i in range(width): scan_line[i] = img[line][i]` -/
+theorem readLine_exec (st : State F) (fuel H W n : Nat) (hs : st.ctl = .run)
+    (hw : st.ienv "width" = W) (hline : st.ienv "line" = n) (hn : n < H)
+    (hd : st.shp "scan_line" = [W]) (hsrc : st.shp "img" = [H, W]) (ld : (st.fa "scan_line").length = W) :
+    let r := exec fuel readLine st
+    r.ctl = .run ∧ Only [] ["scan_line"] st r ∧ (r.fa "scan_line").length = W ∧
+    ∀ q, q < W → (r.fa "scan_line").getD q Fl.nan = (st.fa "img").getD (n * W + q) Fl.nan :=
+  readRow_exec "scan_line" "img" (by decide) st fuel H W n hs hw hline hn hd hsrc ld
+
+/-- `for i in range(width): line_proximity[i] = img_distance[line][i]` -/
+theorem readDistance_exec (st : State F) (fuel H W n : Nat) (hs : st.ctl = .run)
+    (hw : st.ienv "width" = W) (hline : st.ienv "line" = n) (hn : n < H)
+    (hd : st.shp "line_proximity" = [W]) (hsrc : st.shp "img_distance" = [H, W]) (ld : (st.fa "line_proximity").length = W) :
+    let r := exec fuel readDistance st
+    r.ctl = .run ∧ Only [] ["line_proximity"] st r ∧ (r.fa "line_proximity").length = W ∧
+    ∀ q, q < W → (r.fa "line_proximity").getD q Fl.nan = (st.fa "img_distance").getD (n * W + q) Fl.nan :=
+  readRow_exec "line_proximity" "img_distance" (by decide) st fuel H W n hs hw hline hn hd hsrc ld
+
 /-- `for i in range(width): img_distance[line][i] = line_proximity[i]` -/
 theorem storeDistance_exec (st : State F) (fuel H W n : Nat) (hs : st.ctl = .run)
     (hw : st.ienv "width" = W) (hline : st.ienv "line" = n) (hn : n < H)
